@@ -255,6 +255,22 @@ fn check(id: &str, tier: Tier) -> i32 {
                             },
                         ));
                     }
+                    (Ok(st), _) if st.success() => {
+                        // the abnormal end did not reproduce; the second run completed and its result counts
+                        eprintln!("worker {w}: the abnormal end did not reproduce, using the result of the second run");
+                        match std::fs::read(&out).ok().and_then(|b| serde_json::from_slice::<WorkerResult>(&b).ok()) {
+                            Some(r) => {
+                                total.merge(r.stats);
+                                for (k, v) in r.per_unit {
+                                    *per_unit.entry(k).or_default() += v;
+                                }
+                                if let Some(f) = r.failure {
+                                    failures.push(f);
+                                }
+                            }
+                            None => infra = true,
+                        }
+                    }
                     _ => infra = true,
                 }
             }
